@@ -107,7 +107,7 @@ Qed.
 (* ====================================================================== *)
 (* the comparison as the translator generated it, taken out of _cmp [op = 'eq'] *)
 Definition props_chain : pyCalendar -> pyTimePoint -> pyTimePoint -> exc bool :=
-  ltac:(let body := eval cbv delta [py_TimePoint__cmp__eq] in py_TimePoint__cmp__eq in
+  ltac:(let body := eval cbv beta zeta delta [py_TimePoint__cmp__eq] in py_TimePoint__cmp__eq in
         lazymatch body with
         | (fun (fuel : nat) (cal : pyCalendar) (s o : pyTimePoint) =>
              if _ then _ else ebind (@?m cal s o) _) => exact m
